@@ -1,3 +1,20 @@
 from props.common import run_all as run  # noqa: F401
 
-META = {"claimed": False, "reason": "check not built yet (work in progress; the technique applies, see DESIGN.md section 5)"}
+META = {'claimed': True,
+ 'title': 'Digests, HMACs, PBKDF2 and CRC32C equal their specified functions',
+ 'level_text': 'proof: alg/sha256.c, sha1.c, md5.c (portable paths) and alg/crc32c.c are modelled in Gallina and instantiated with the round constants, IVs, per-round macro tuples, padding and CRC '
+               'masks/polynomial REGENERATED from the C text on every run. 31 theorems: the three block transforms equal the compression functions of FIPS 180-4 / RFC 3174 / RFC 1321 for every state '
+               'and block (C01_transforms_are_the_standards_compression_functions); Init/Update*/Final over EVERY partition and EVERY length equals the standard on the concatenation, one-shot = '
+               'streaming (C01_sha256/sha1_correct_all_lengths, C01_md5_correct), also from any well-formed context incl. the carry between the 32-bit count words and the 2^64 wrap '
+               '(C01_resume_from_any_context_correct); HMAC-SHA256/SHA1/MD5 = RFC 2104 for every key length (hashed-key branch) and partition; PBKDF2-HMAC-SHA256 = RFC 8018 for 1 <= c < 2^64-1 and '
+               "every dkLen the assert admits (C01_pbkdf2_correct; c=0 behaves as c=1). CRC32C: init()'s tables are i*x^(8(k+1)) mod P, table step = 8 bit-serial steps, slice-by-4 = 4 byte steps, "
+               'and for every byte string and every Update partition the bit string 1||data||crc (LSB first) is a multiple of the Castagnoli polynomial (C01_crc32c_algebraic_every_partition), with '
+               'pmod proved to be carry-less remainder. Unbounded in message/key length and partition. Bound to the compiled C by the correspondence run (ASan/UBSan build: digests, HMACs, PBKDF2, '
+               'raw transforms, resumed contexts; implementation = extracted model = extracted standard; lengths around every block/padding boundary, partitions incl. empty calls, keys around 64 '
+               'bytes).',
+ 'level_note': 'Trusted: Coq kernel + vm_compute (table equalities); translator tools/extract/x_hash.py, x_crc.py; the C control flow is modelled by hand and bound by differential execution only; '
+               "the word vocabulary (add32, rotr32, be32dec: Alg/Words.v) is shared by model and spec (its arithmetic meaning is proved in WordsProofs.v and the specs are run on the standards' test "
+               'vectors in HashExamples.v); the transcription of the standards in Alg/*Spec.v. c = 2^64-1 makes the C loop forever (model: OutOfFuel, excluded by the theorem). Accelerated transforms '
+               "are C03's subject. Print Assumptions: closed under the global context.",
+ 'trusted_base': ["transcriptions of FIPS 180-4, RFC 3174, RFC 1321, RFC 2104, RFC 8018 in coq/Alg/*Spec.v (run on the standards' vectors)", 'tools/extract/x_hash.py, x_crc.py'],
+ 'assumptions': ['callers pass contexts produced by Init/Update (well-formed contexts)', 'PBKDF2 iteration count below 2^64-1']}
